@@ -4,7 +4,8 @@
 //
 // Access discipline of the taproot signing-message encoder with respect to the supplied spent outputs, and its
 // totality (C10: every out-of-range index / missing prevout is an `Err`, never a panic).
-// Assumption A-hash (noop): SHA-256 compression is replaced by a no-op (`process_blocks`), digests are not inspected here.
+// Assumption A-hash: the SHA-256 engine is replaced by the recording model of support/c03_hash_models.rs; digests are not
+// inspected here (Ok/Err control flow and message length only).
 // Oracle (C13 statement + BIP-341/Elements message layout):
 //   * a hash type with ANYONECANPAY needs only the spent output of the input being signed => Prevouts::One(i, p) with
 //     i == input_index is sufficient, for ALL|ACP, NONE|ACP and SINGLE|ACP alike;
@@ -13,6 +14,8 @@
 //                                      + [annex]*32 + [SINGLE]*64 + [script path]*37     (inputs without issuance)
 use super::*;
 use crate::hashes::sha256::HashEngine as ShaEngine;
+use crate::hashes::sha256::Hash as ShaHash;
+use crate::hashes::HashEngine as HashEngineTrait;
 use crate::transaction::{AssetIssuance, OutPoint, TxOutWitness};
 use crate::{AssetId, LockTime, Txid};
 
@@ -96,30 +99,28 @@ fn run_one(tx: &Transaction, p: &TxOut, i: usize, q: &Query, t: SchnorrSighashTy
 }
 
 macro_rules! one_harness {
-    ($name:ident, $nin:expr, $nout:expr, $d8:expr) => {
+    ($name:ident, $nin:expr, $nout:expr, $b:expr) => {
         #[kani::proof]
-        #[kani::stub(ShaEngine::process_blocks, hm::process_blocks_noop)]
+        #[kani::stub(<ShaEngine as HashEngineTrait>::input, hm::input_fold)]
+        #[kani::stub(ShaHash::from_engine, hm::from_engine_fold)]
         fn $name() {
             const NIN: usize = $nin;
             const NOUT: usize = $nout;
+            assert!(hm::layout_ok());
             let tx = mk_tx(NIN, NOUT);
             let p = mk_prevout();
-            let q = Query { b: kani::any(), idx: kani::any(), annex: kani::any(), leaf: kani::any() };
+            let q = Query { b: $b, idx: kani::any(), annex: kani::any(), leaf: kani::any() };
             let i: usize = kani::any();
             let t = match SchnorrSighashType::from_u8(q.b) { Some(t) => t, None => { kani::assume(false); return; } };
-            // D8 isolation: ALL|ANYONECANPAY is checked by its own harness
-            if $d8 { kani::assume(q.b == 0x81); } else { kani::assume(q.b != 0x81); }
             let acp = q.b & 0x80 != 0;
             let single = q.b & 3 == 3;
             let (r, n) = run_one(&tx, &p, i, &q, t);
             let want_ok = acp && q.idx < NIN && i == q.idx && (!single || q.idx < NOUT);
+            kani::cover!(want_ok || !acp);
             match r {
                 Ok(()) => {
                     assert!(want_ok, "One() accepted although the type needs all prevouts / index invalid");
                     assert!(n == expected_len(&q), "signing message length");
-                    kani::cover!(q.b == 0x82);
-                    kani::cover!(q.b == 0x83 && q.annex && q.leaf);
-                    kani::cover!(q.b == 0x81);
                 }
                 Err(e) => {
                     assert!(!want_ok, "ANYONECANPAY with the signed input's prevout must be sufficient");
@@ -131,9 +132,6 @@ macro_rules! one_harness {
                         Error::SingleWithoutCorrespondingOutput { index, outputs_size } => assert!(single && q.idx >= NOUT && *index == q.idx && *outputs_size == NOUT),
                         _ => assert!(false, "unexpected error kind"),
                     }
-                    kani::cover!(matches!(e, Error::PrevoutKind));
-                    kani::cover!(matches!(e, Error::PrevoutIndex));
-                    kani::cover!(matches!(e, Error::IndexOutOfInputsBounds { .. }));
                     core::mem::forget(e);
                 }
             }
@@ -143,12 +141,32 @@ macro_rules! one_harness {
     };
 }
 
-//@ harness: taproot_one_1in_1out class=B tier=quick bound="1 input, 1 output, no issuance, prevout explicit asset/value with 2-byte script; all seven hash types except 0x81; all usize indices; annex/script-path present or absent" props=C13,C10 timeout=600
-//@ clause: with Prevouts::One(i, p): every ANYONECANPAY type succeeds iff input_index is a real input, i == input_index (and SINGLE has its output), writing a message of the BIP-341/Elements length; every type without ANYONECANPAY is Err(PrevoutKind); out-of-range index / wrong prevout index are Err, never a panic
-one_harness!(taproot_one_1in_1out, 1, 1, false);
-//@ harness: taproot_one_2in_1out class=B tier=quick bound="2 inputs, 1 output (SINGLE without output reachable), otherwise as taproot_one_1in_1out" props=C13,C10 timeout=600
-//@ clause: same with 2 inputs and 1 output: SINGLE|ANYONECANPAY at index 1 is Err(SingleWithoutCorrespondingOutput), the other prevout is never needed
-one_harness!(taproot_one_2in_1out, 2, 1, false);
-//@ harness: taproot_one_allacp_2in_1out class=B tier=quick bound="2 inputs, 1 output, hash type 0x81 only" props=C13 timeout=600
+//@ harness: taproot_one_none_acp class=B tier=quick bound="2 inputs, 1 output, no issuance; prevout explicit asset/value, 2-byte script; hash type 0x82; all usize input indices and One-indices; annex / script path present or absent" props=C13,C10 timeout=900
+//@ clause: NONE|ANYONECANPAY with Prevouts::One(i, p) succeeds iff input_index is a real input and i == input_index, writing a message of the BIP-341/Elements length; otherwise Err(IndexOutOfInputsBounds / PrevoutIndex), never a panic; the other input's prevout is never needed
+one_harness!(taproot_one_none_acp, 2, 1, 0x82);
+//@ harness: taproot_one_single_acp class=B tier=quick bound="as taproot_one_none_acp, hash type 0x83 (index 1 has no output)" props=C13,C10 timeout=900
+//@ clause: SINGLE|ANYONECANPAY with Prevouts::One: as above, and an input without a corresponding output is Err(SingleWithoutCorrespondingOutput)
+one_harness!(taproot_one_single_acp, 2, 1, 0x83);
+//@ harness: taproot_one_all_acp class=B tier=quick bound="as taproot_one_none_acp, hash type 0x81" props=C13 timeout=900
 //@ clause: ALL|ANYONECANPAY with Prevouts::One for the signed input succeeds (no other spent output is needed). EXPECTED TO FAIL on the pinned tree: DESIGN section 6, D8
-one_harness!(taproot_one_allacp_2in_1out, 2, 1, true);
+one_harness!(taproot_one_all_acp, 2, 1, 0x81);
+//@ harness: taproot_one_default_needs_all class=B tier=quick bound="2 inputs, 1 output, hash type 0x00" props=C13,C10 timeout=900
+//@ clause: a hash type without ANYONECANPAY needs all spent outputs: Prevouts::One is Err(PrevoutKind) for every index
+one_harness!(taproot_one_default_needs_all, 2, 1, 0x00);
+//@ harness: taproot_one_all_needs_all class=B tier=thorough bound="2 inputs, 1 output, hash type 0x01" props=C13,C10 timeout=900
+//@ clause: same for ALL
+one_harness!(taproot_one_all_needs_all, 2, 1, 0x01);
+//@ harness: taproot_one_none_needs_all class=B tier=thorough bound="2 inputs, 1 output, hash type 0x02" props=C13,C10 timeout=900
+//@ clause: same for NONE
+one_harness!(taproot_one_none_needs_all, 2, 1, 0x02);
+//@ harness: taproot_one_single_needs_all class=B tier=thorough bound="2 inputs, 1 output, hash type 0x03" props=C13,C10 timeout=900
+//@ clause: same for SINGLE
+one_harness!(taproot_one_single_needs_all, 2, 1, 0x03);
+
+//@ harness: hash_model_layout class=F tier=quick props=C13,C03
+//@ clause: (checked assumption) the engine mirror used by the hash model has the layout of bitcoin_hashes' sha256::HashEngine
+#[kani::proof]
+fn hash_model_layout() {
+    assert!(hm::layout_ok());
+    kani::cover!(true);
+}
